@@ -251,7 +251,7 @@ var detTemplates = []detTemplate{
 	{name: "consensus", args: []string{"compute", "consensus", "-i", "@trees.nw", "-f", "0.5", "--seed", "@SEED", "-o", "@OUT"}},
 	{name: "reroot-midpoint-big", args: []string{"reroot", "midpoint", "-i", "@big.nw", "--seed", "@SEED", "-o", "@OUT"}},
 	{name: "stats-big", args: []string{"stats", "-i", "@big.nw", "--seed", "@SEED", "-o", "@OUT"}},
-	{name: "bipartitiontree-repeated-names", args: []string{"compute", "bipartitiontree", "-i", "@one.nw", "-f", "@tips.txt", "t3", "t0", "t5", "t3", "--seed", "@SEED", "-o", "@OUT"}},
+	{name: "bipartitiontree-repeated-names", args: []string{"compute", "bipartitiontree", "-i", "@one.nw", "t3", "t0", "t5", "t3", "--seed", "@SEED", "-o", "@OUT"}},
 	{name: "bipartitiontree-names-only", args: []string{"compute", "bipartitiontree", "-i", "@one.nw", "t4", "t1", "t2", "--seed", "@SEED", "-o", "@OUT"}},
 	{name: "bipartitiontree", args: []string{"compute", "bipartitiontree", "-i", "@one.nw", "-f", "@tips.txt", "--seed", "@SEED", "-o", "@OUT"}},
 	{name: "compare-edges", args: []string{"compare", "edges", "-i", "@ref.nw", "-c", "@trees.nw", "--seed", "@SEED"}, stdout: true},
